@@ -117,6 +117,8 @@ void h_parse_frame(void) {
                        st->mapper_known == 1 && v_mac_eq(st->mapper_real.a, f + 24) &&
                        (o.mapper_known ? SAME_MAC(st->mapper_apparent, o.mapper_apparent) : v_mac_eq(st->mapper_apparent.a, f + 6)));
                 V_POST("C03.generation-stored: the Hello's service carries this Discover's generation", GEN_SLOT(st, tos) == gen);
+                V_POST("C03.other-service-generation-untouched: a Discover of one service leaves the other service's generation alone",
+                       tos == 1 ? st->mapper_gen_topology == o.mapper_gen_topology : st->mapper_gen_quick == o.mapper_gen_quick);
                 V_CANARY("accept");
             } else {
                 V_POST("C05.foreign-discover-silent: a Discover from another station while a mapper is active changes nothing",
